@@ -1,2 +1,387 @@
 From HC Require Import Base.HBytes Base.HBytesProofs Base.ChaChaPoly Base.ChaChaPolyProofs Model.Framing Model.ConnRead Proofs.FramingProofs.
 From Coq Require Import ZifyBool ZifyNat ZifyN.
+
+Local Arguments N.mul : simpl never.
+Local Arguments N.add : simpl never.
+Local Arguments N.to_nat : simpl never.
+
+Lemma frame_need_firstn rcv n : frame_need rcv = Some n -> (n <= length rcv)%nat ->
+  frame_need (firstn n rcv) = Some (length (firstn n rcv)).
+Proof.
+  intros En Hle. rewrite firstn_length, Nat.min_l by exact Hle.
+  destruct rcv as [|l0 [|l1 r]]; try discriminate.
+  unfold frame_need in En. injection En as <-.
+  change (2 + N.to_nat (l0 + 256 * l1) + 16)%nat with (S (S (N.to_nat (l0 + 256 * l1) + 16))).
+  reflexivity.
+Qed.
+
+Definition datas (evs : list sockev) : bytes :=
+  flat_map (fun e => match e with SockData bs => bs | _ => [] end) evs.
+Definition no_eof (evs : list sockev) : Prop := Forall (fun e => e <> SockEOF) evs.
+Definition data_nonempty (evs : list sockev) : Prop :=
+  Forall (fun e => match e with SockData bs => bs <> [] | _ => True end) evs.
+
+Definition complete (rcv : bytes) : bool :=
+  match frame_need rcv with Some n => (n <=? length rcv)%nat | None => false end.
+
+(** readFrame never loses, duplicates or reorders a byte, whatever the schedule: what it returns
+    plus what it keeps plus what is still to arrive is what was kept plus what was to arrive. *)
+Lemma datas_cons_data bs evs : datas (SockData bs :: evs) = bs ++ datas evs.
+Proof. reflexivity. Qed.
+
+Lemma read_frame_conserves : forall fuel rcv evs,
+  match read_frame fuel rcv evs with
+  | (FFrame f rcv1, rcv2, evs') =>
+      rcv2 = rcv1 /\ f ++ rcv1 ++ datas evs' = rcv ++ datas evs /\
+      frame_need f = Some (length f)
+  | (_, rcv2, evs') => rcv2 ++ datas evs' = rcv ++ datas evs
+  end.
+Proof.
+  induction fuel as [|f IH]; intros rcv evs; cbn [read_frame]; [reflexivity|].
+  assert (Hev : match evs with
+      | [] => (FBlocked, rcv, [])
+      | SockTimeout :: evs' => (FTimeout, rcv, evs')
+      | SockEOF :: evs' => (FEOF, rcv, evs')
+      | SockData bs :: evs' =>
+        if (length bs <=? sock_buf)%nat then read_frame f (rcv ++ bs) evs'
+        else read_frame f (rcv ++ firstn sock_buf bs) (SockData (skipn sock_buf bs) :: evs')
+      end = match evs with
+      | [] => (FBlocked, rcv, [])
+      | SockTimeout :: evs' => (FTimeout, rcv, evs')
+      | SockEOF :: evs' => (FEOF, rcv, evs')
+      | SockData bs :: evs' =>
+        if (length bs <=? sock_buf)%nat then read_frame f (rcv ++ bs) evs'
+        else read_frame f (rcv ++ firstn sock_buf bs) (SockData (skipn sock_buf bs) :: evs')
+      end) by reflexivity.
+  assert (Hstep : match (match evs with
+      | [] => (FBlocked, rcv, [])
+      | SockTimeout :: evs' => (FTimeout, rcv, evs')
+      | SockEOF :: evs' => (FEOF, rcv, evs')
+      | SockData bs :: evs' =>
+        if (length bs <=? sock_buf)%nat then read_frame f (rcv ++ bs) evs'
+        else read_frame f (rcv ++ firstn sock_buf bs) (SockData (skipn sock_buf bs) :: evs')
+      end) with
+    | (FFrame fr rcv1, rcv2, evs') =>
+        rcv2 = rcv1 /\ fr ++ rcv1 ++ datas evs' = rcv ++ datas evs /\ frame_need fr = Some (length fr)
+    | (_, rcv2, evs') => rcv2 ++ datas evs' = rcv ++ datas evs
+    end).
+  { clear Hev. destruct evs as [|[bs| |] evs']; try reflexivity.
+    destruct (Nat.leb_spec (length bs) sock_buf) as [Hs|Hl].
+    - specialize (IH (rcv ++ bs) evs').
+      assert (Hd : (rcv ++ bs) ++ datas evs' = rcv ++ datas (SockData bs :: evs'))
+        by (rewrite datas_cons_data, app_assoc; reflexivity).
+      rewrite Hd in IH. exact IH.
+    - specialize (IH (rcv ++ firstn sock_buf bs) (SockData (skipn sock_buf bs) :: evs')).
+      assert (Hd : (rcv ++ firstn sock_buf bs) ++ datas (SockData (skipn sock_buf bs) :: evs') = rcv ++ datas (SockData bs :: evs')).
+      { rewrite !datas_cons_data. rewrite <- !app_assoc. f_equal. rewrite app_assoc, firstn_skipn. reflexivity. }
+      rewrite Hd in IH. exact IH. }
+  destruct (frame_need rcv) as [n|] eqn:En; [|exact Hstep].
+  destruct (Nat.leb_spec n (length rcv)) as [Hle|Hgt]; [|exact Hstep].
+  split; [reflexivity|]. split; [rewrite app_assoc, firstn_skipn; reflexivity|].
+  apply frame_need_firstn; assumption.
+Qed.
+
+(** ---------- one DecryptedRead on an honest stream ---------- *)
+Section Honest.
+  Variable seal : bytes -> bytes -> bytes -> bytes -> bytes * bytes.
+  Variable open : bytes -> bytes -> bytes -> bytes -> bytes -> option bytes.
+  Hypothesis open_seal : forall k n a p, open k n a (fst (seal k n a p)) (snd (seal k n a p)) = Some p.
+  Hypothesis seal_len : forall k n a p,
+    length (fst (seal k n a p)) = length p /\ length (snd (seal k n a p)) = 16%nat.
+  Variable key : bytes.
+
+  Definition wire (ctr : N) (chunks : list bytes) : bytes := fst (encrypt_packets seal key ctr chunks).
+  Definition small (chunks : list bytes) : Prop := Forall (fun c => (length c <= frame_max)%nat) chunks.
+
+  Lemma wire_cons ctr c cs : wire ctr (c :: cs) = frame seal key ctr c ++ wire ((ctr + 1) mod m64n) cs.
+  Proof.
+    unfold wire. cbn [encrypt_packets]. destruct (encrypt_packets seal key ((ctr + 1) mod m64n) cs). reflexivity.
+  Qed.
+
+  Lemma frame_shape ctr c : (length c <= frame_max)%nat ->
+    exists l0 l1 body, frame seal key ctr c = l0 :: l1 :: body /\
+      N.to_nat (l0 + 256 * l1) = length c /\ length body = (length c + 16)%nat.
+  Proof.
+    intros Hc. unfold frame.
+    destruct (seal key (nonce_of ctr) (aad_of c) c) as [ct tag] eqn:Es.
+    pose proof (seal_len key (nonce_of ctr) (aad_of c) c) as [H1 H2]. rewrite Es in H1, H2. cbn [fst snd] in H1, H2.
+    destruct (aad_of_shape seal open open_seal seal_len c Hc) as (l0 & l1 & Ha & Hl). rewrite Ha.
+    exists l0, l1, (ct ++ tag). split; [reflexivity|]. split; [exact Hl|]. rewrite app_length. lia.
+  Qed.
+
+  Lemma frame_length ctr c : (length c <= frame_max)%nat -> length (frame seal key ctr c) = (18 + length c)%nat.
+  Proof. intros Hc. destruct (frame_shape ctr c Hc) as (l0 & l1 & b & -> & _ & Hb). cbn [length]. lia. Qed.
+
+  (** a complete frame at the front of an honest stream is the first sent frame *)
+  Lemma front_frame ctr chunks fr rest : small chunks ->
+    frame_need fr = Some (length fr) -> fr ++ rest = wire ctr chunks ->
+    exists c cs, chunks = c :: cs /\ fr = frame seal key ctr c /\ rest = wire ((ctr + 1) mod m64n) cs.
+  Proof.
+    intros Hs Hn E. destruct chunks as [|c cs].
+    - unfold wire in E. cbn in E. destruct fr as [|a [|b r]]; cbn in Hn; try discriminate.
+    - inversion Hs as [|? ? Hc Hcs]; subst. exists c, cs. split; [reflexivity|].
+      rewrite wire_cons in E.
+      destruct (frame_shape ctr c Hc) as (l0 & l1 & body & Hf & Hl & Hb).
+      destruct fr as [|a [|b r]]; cbn [frame_need] in Hn; try discriminate.
+      rewrite Hf in E. cbn [app] in E. injection E as -> -> E.
+      injection Hn as Hn. cbn [length] in Hn. rewrite Hl in Hn.
+      assert (Hlen : length r = length body) by lia.
+      assert (Hr : r = body /\ rest = wire ((ctr + 1) mod m64n) cs).
+      { remember (wire ((ctr + 1) mod m64n) cs) as w eqn:Ew. clear Ew Hf Hb Hl Hn. revert w E.
+        revert body Hlen. induction r as [|x r IH]; intros [|y body] Hlen w E; simpl in Hlen; try lia.
+        - split; [reflexivity|exact E].
+        - cbn [app] in E. injection E as -> E. destruct (IH body ltac:(lia) w E) as [-> ->]. auto. }
+      destruct Hr as [-> ->]. rewrite Hf. auto.
+  Qed.
+
+  Lemma decrypt_one_frame ctr c : (length c <= frame_max)%nat ->
+    decrypt open key ctr (frame seal key ctr c) = DOk c ((ctr + 1) mod m64n) [].
+  Proof.
+    intros Hc. unfold decrypt.
+    pose proof (decrypt_step seal open open_seal seal_len (length (frame seal key ctr c)) key ctr c [] [] Hc) as H.
+    rewrite app_nil_r in H. cbn [app] in H. rewrite H.
+    destruct (Nat.ltb_spec (length c) frame_max); [reflexivity|].
+    rewrite frame_length by exact Hc. cbn [plus decrypt_fuel]. reflexivity.
+  Qed.
+End Honest.
+
+Lemma read_frame_no_eof : forall fuel rcv evs, no_eof evs ->
+  let '(r, _, evs') := read_frame fuel rcv evs in r <> FEOF /\ no_eof evs'.
+Proof.
+  induction fuel as [|f IH]; intros rcv evs Hn; cbn [read_frame]; [split; [discriminate|exact Hn]|].
+  destruct (match frame_need rcv with Some n => (n <=? length rcv)%nat | None => false end).
+  - destruct (frame_need rcv); split; try discriminate; exact Hn.
+  - destruct evs as [|[bs| |] evs']; try (split; [discriminate|]).
+    + constructor.
+    + inversion Hn; subst. destruct (length bs <=? sock_buf)%nat.
+      * apply IH. assumption.
+      * apply IH. constructor; [discriminate|assumption].
+    + inversion Hn; assumption.
+    + inversion Hn as [|? ? H]; subst. congruence.
+Qed.
+
+Definition plain_of (st : cstate) : bytes := match plain st with Some p => p | None => [] end.
+Definition out_of (r : rres) : bytes := match r with RData o => o | _ => [] end.
+
+Section Honest2.
+  Variable seal : bytes -> bytes -> bytes -> bytes -> bytes * bytes.
+  Variable open : bytes -> bytes -> bytes -> bytes -> bytes -> option bytes.
+  Hypothesis open_seal : forall k n a p, open k n a (fst (seal k n a p)) (snd (seal k n a p)) = Some p.
+  Hypothesis seal_len : forall k n a p,
+    length (fst (seal k n a p)) = length p /\ length (snd (seal k n a p)) = 16%nat.
+  Variable key : bytes.
+  Notation wire := (wire seal key).
+
+  Definition measure (st : cstate) (chunks : list bytes) : nat :=
+    (2 * length chunks + match plain st with Some _ => 1 | None => 0 end + 1)%nat.
+
+  Lemma conn_read_honest : forall fuel st bsize evs chunks,
+    small chunks -> no_eof evs -> (0 < bsize)%nat ->
+    received st ++ datas evs = wire (rctr st) chunks ->
+    (measure st chunks < fuel)%nat ->
+    let '(r, st', evs') := conn_read open key fuel st bsize evs in
+    (match r with
+     | RData out => out <> [] /\ (length out <= bsize)%nat
+     | RTimeout | RBlocked => True
+     | RErr _ => False end) /\
+    exists k, (k <= length chunks)%nat /\
+      out_of r ++ plain_of st' ++ concat (skipn k chunks) = plain_of st ++ concat chunks /\
+      received st' ++ datas evs' = wire (rctr st') (skipn k chunks) /\
+      small (skipn k chunks) /\ no_eof evs' /\ closed st' = closed st.
+  Proof.
+    induction fuel as [|f IH]; intros st bsize evs chunks Hs Hn Hb Hw Hm; [lia|].
+    cbn [conn_read]. destruct (plain st) as [p|] eqn:Ep.
+    - (* serve from the decrypted buffer *)
+      destruct bsize as [|b]; [lia|].
+      destruct p as [|x p'].
+      + (* buffer empty: drop it and go on *)
+        cbn [firstn length Nat.ltb Nat.leb Nat.eqb orb andb negb skipn].
+        set (st1 := mkC (received st) None (rctr st) (closed st)).
+        specialize (IH st1 (S b) evs chunks Hs Hn Hb Hw).
+        assert (Hm1 : (measure st1 chunks < f)%nat) by (unfold measure in *; rewrite Ep in Hm; cbn [plain st1]; lia).
+        specialize (IH Hm1).
+        destruct (conn_read open key f st1 (S b) evs) as [[r st'] evs'].
+        destruct IH as (Hr & k & Hk & Hc & Hw' & Hs' & Hn' & Hcl). split; [exact Hr|].
+        exists k. unfold plain_of in *. rewrite Ep. cbn [plain st1] in Hc. repeat split; auto.
+      + cbn [firstn]. cbv iota.
+        split; [split; [discriminate|cbn [length]; rewrite firstn_length; lia]|].
+        exists 0%nat. cbn [skipn out_of received rctr closed].
+        split; [lia|]. split; [|repeat split; auto].
+        unfold plain_of. rewrite Ep. cbn [plain].
+        set (dropb := ((length (x :: firstn b p') <? S b)%nat || ((length (x :: p') =? 0)%nat && negb (S b =? 0)%nat))%bool).
+        destruct dropb eqn:Ed; cbn [app]; f_equal.
+        * unfold dropb in Ed. cbn [length Nat.eqb andb] in Ed. rewrite orb_false_r in Ed.
+          apply Nat.ltb_lt in Ed. cbn [length] in Ed. rewrite firstn_length in Ed.
+          rewrite firstn_all2 by lia. reflexivity.
+        * rewrite app_assoc, firstn_skipn. reflexivity.
+    - (* fetch and decrypt the next frame *)
+      pose proof (read_frame_conserves (S (evs_size evs)) (received st) evs) as Hc.
+      pose proof (read_frame_no_eof (S (evs_size evs)) (received st) evs Hn) as He.
+      destruct (read_frame (S (evs_size evs)) (received st) evs) as [[r rcv2] evs2].
+      destruct He as [He Hn2].
+      destruct r as [fr rcv1| | |].
+      + destruct Hc as (-> & Hc & Hneed). rewrite Hw in Hc.
+        destruct (front_frame seal open open_seal seal_len key (rctr st) chunks fr (rcv1 ++ datas evs2) Hs Hneed Hc)
+          as (c & cs & -> & -> & Hrest).
+        inversion Hs as [|? ? Hcl Hcs]; subst.
+        rewrite (decrypt_one_frame seal open open_seal seal_len key (rctr st) c Hcl).
+        set (st1 := mkC rcv1 (Some c) ((rctr st + 1) mod m64n) (closed st)).
+        specialize (IH st1 bsize evs2 cs Hcs Hn2 Hb Hrest).
+        assert (Hm1 : (measure st1 cs < f)%nat) by (unfold measure in *; rewrite Ep in Hm; cbn [plain st1 length] in *; lia).
+        specialize (IH Hm1).
+        destruct (conn_read open key f st1 bsize evs2) as [[r st'] evs'].
+        destruct IH as (Hr & k & Hk & Hcc & Hw' & Hs' & Hn' & Hcl'). split; [exact Hr|].
+        exists (S k). cbn [length skipn]. split; [lia|]. unfold plain_of in *. rewrite Ep. cbn [plain st1 concat app] in *.
+        repeat split; auto.
+      + split; [exact I|]. exists 0%nat. cbn [skipn out_of received rctr closed plain_of plain app].
+        unfold plain_of. rewrite Ep. repeat split; auto; try lia. rewrite Hc. exact Hw.
+      + congruence.
+      + split; [exact I|]. exists 0%nat. cbn [skipn out_of received rctr closed plain_of plain app].
+        unfold plain_of. rewrite Ep. repeat split; auto; try lia. rewrite Hc. exact Hw.
+  Qed.
+End Honest2.
+
+Lemma evs_size_cons e evs : evs_size (e :: evs) = (ev_size e + evs_size evs)%nat.
+Proof. reflexivity. Qed.
+Lemma datas_cons e evs : datas (e :: evs) = match e with SockData bs => bs | _ => [] end ++ datas evs.
+Proof. reflexivity. Qed.
+
+Lemma evs_size_datas evs : (length (datas evs) <= evs_size evs)%nat.
+Proof.
+  induction evs as [|e evs IH]; [simpl; lia|].
+  rewrite evs_size_cons, datas_cons, app_length. destruct e; cbn [ev_size length]; lia.
+Qed.
+
+Lemma read_frame_blocked : forall fuel rcv evs, (evs_size evs < fuel)%nat ->
+  forall rcv' evs', read_frame fuel rcv evs = (FBlocked, rcv', evs') -> evs' = [] /\ complete rcv' = false.
+Proof.
+  induction fuel as [|f IH]; intros rcv evs Hf rcv' evs' H; [lia|].
+  cbn [read_frame] in H. fold (complete rcv) in H. unfold complete in H.
+  destruct (frame_need rcv) as [n|] eqn:En.
+  - destruct (n <=? length rcv)%nat eqn:El; [discriminate|].
+    destruct evs as [|[bs| |] evs0]; try discriminate.
+    + injection H as <- <-. split; [reflexivity|]. unfold complete. rewrite En. exact El.
+    + rewrite evs_size_cons in Hf. cbn [ev_size] in Hf.
+      destruct (Nat.leb_spec (length bs) sock_buf).
+      * eapply IH; [|exact H]. lia.
+      * eapply IH; [|exact H]. rewrite evs_size_cons. cbn [ev_size].
+        rewrite skipn_length. unfold sock_buf in *. lia.
+  - destruct evs as [|[bs| |] evs0]; try discriminate.
+    + injection H as <- <-. split; [reflexivity|]. unfold complete. rewrite En. reflexivity.
+    + rewrite evs_size_cons in Hf. cbn [ev_size] in Hf.
+      destruct (Nat.leb_spec (length bs) sock_buf).
+      * eapply IH; [|exact H]. lia.
+      * eapply IH; [|exact H]. rewrite evs_size_cons. cbn [ev_size].
+        rewrite skipn_length. unfold sock_buf in *. lia.
+Qed.
+
+Section Honest3.
+  Variable seal : bytes -> bytes -> bytes -> bytes -> bytes * bytes.
+  Variable open : bytes -> bytes -> bytes -> bytes -> bytes -> option bytes.
+  Hypothesis open_seal : forall k n a p, open k n a (fst (seal k n a p)) (snd (seal k n a p)) = Some p.
+  Hypothesis seal_len : forall k n a p,
+    length (fst (seal k n a p)) = length p /\ length (snd (seal k n a p)) = 16%nat.
+  Variable key : bytes.
+  Notation wire := (wire seal key).
+
+  Lemma wire_length : forall chunks, small chunks -> forall c, (18 * length chunks <= length (wire c chunks))%nat.
+  Proof.
+    induction chunks as [|x cs IH]; intros Hs c; [simpl; lia|].
+    inversion Hs; subst. rewrite wire_cons, app_length. rewrite (frame_length seal open open_seal seal_len) by assumption.
+    specialize (IH H2 ((c + 1) mod m64n)). cbn [length]. lia.
+  Qed.
+
+  Definition good_result (r : rres) : Prop :=
+    match r with RData o => o <> [] | RTimeout | RBlocked => True | RErr _ => False end.
+
+  (** Refinement to a byte FIFO: for EVERY list of sent chunks, EVERY schedule of socket reads
+      delivering their ciphertext (any segmentation, timeouts anywhere) and EVERY sequence of
+      positive caller buffer sizes: no result is an error or end-of-stream, and what was
+      delivered, followed by what is still buffered in plaintext, followed by the chunks not
+      yet decrypted, is exactly what was sent — nothing lost, duplicated or reordered. *)
+  Theorem reads_refine_fifo : forall bsizes st evs chunks,
+    small chunks -> no_eof evs -> Forall (fun b => (0 < b)%nat) bsizes ->
+    received st ++ datas evs = wire (rctr st) chunks ->
+    let '(rs, st', evs') := run_reads open key st bsizes evs in
+    Forall good_result rs /\
+    exists k, (k <= length chunks)%nat /\
+      concat (map out_of rs) ++ plain_of st' ++ concat (skipn k chunks) = plain_of st ++ concat chunks /\
+      received st' ++ datas evs' = wire (rctr st') (skipn k chunks).
+  Proof.
+    induction bsizes as [|b bs IH]; intros st evs chunks Hs Hn Hb Hw; cbn [run_reads].
+    - split; [constructor|]. exists 0%nat. cbn. split; [lia|]. split; [reflexivity|exact Hw].
+    - inversion Hb as [|? ? Hb0 Hbs]; subst.
+      assert (Hfuel : (measure st chunks < 4 + length (received st) + evs_size evs)%nat).
+      { unfold measure. pose proof (wire_length chunks Hs (rctr st)) as Hl. rewrite <- Hw, app_length in Hl.
+        pose proof (evs_size_datas evs). destruct (plain st); lia. }
+      pose proof (conn_read_honest seal open open_seal seal_len key _ st b evs chunks Hs Hn Hb0 Hw Hfuel) as H.
+      destruct (conn_read open key (4 + length (received st) + evs_size evs) st b evs) as [[r st1] evs1].
+      destruct H as (Hr & k & Hk & Hc & Hw1 & Hs1 & Hn1 & _).
+      destruct r as [o| |c|].
+      + specialize (IH st1 evs1 (skipn k chunks) Hs1 Hn1 Hbs Hw1).
+        destruct (run_reads open key st1 bs evs1) as [[rs st2] evs2].
+        destruct IH as (Hg & k2 & Hk2 & Hc2 & Hw2). split; [constructor; [exact (proj1 Hr)|exact Hg]|].
+        exists (k + k2)%nat. rewrite skipn_length in Hk2. split; [lia|].
+        rewrite skipn_skipn_add in Hc2, Hw2. split; [|exact Hw2].
+        cbn [map concat out_of]. rewrite <- app_assoc. rewrite Hc2. exact Hc.
+      + specialize (IH st1 evs1 (skipn k chunks) Hs1 Hn1 Hbs Hw1).
+        destruct (run_reads open key st1 bs evs1) as [[rs st2] evs2].
+        destruct IH as (Hg & k2 & Hk2 & Hc2 & Hw2). split; [constructor; [exact I|exact Hg]|].
+        exists (k + k2)%nat. rewrite skipn_length in Hk2. split; [lia|].
+        rewrite skipn_skipn_add in Hc2, Hw2. split; [|exact Hw2].
+        cbn [map concat out_of app]. rewrite Hc2. exact Hc.
+      + destruct Hr.
+      + split; [constructor; [exact I|constructor]|]. exists k. split; [exact Hk|].
+        cbn [map concat out_of app]. split; [exact Hc|exact Hw1].
+  Qed.
+End Honest3.
+
+Section Progress.
+  Variable seal : bytes -> bytes -> bytes -> bytes -> bytes * bytes.
+  Variable open : bytes -> bytes -> bytes -> bytes -> bytes -> option bytes.
+  Hypothesis open_seal : forall k n a p, open k n a (fst (seal k n a p)) (snd (seal k n a p)) = Some p.
+  Hypothesis seal_len : forall k n a p,
+    length (fst (seal k n a p)) = length p /\ length (snd (seal k n a p)) = 16%nat.
+  Variable key : bytes.
+  Notation wire := (wire seal key).
+
+  (** as soon as a complete frame has arrived, a read returns its data without waiting for the
+      network: no socket event is consumed *)
+  Theorem read_progress : forall f st b evs c cs,
+    small (c :: cs) -> c <> [] -> plain st = None -> complete (received st) = true ->
+    received st ++ datas evs = wire (rctr st) (c :: cs) ->
+    exists st', conn_read open key (S (S f)) st (S b) evs = (RData (firstn (S b) c), st', evs).
+  Proof.
+    intros f st b evs c cs Hs Hc Hp Hcomp Hw.
+    cbn [conn_read]. rewrite Hp.
+    pose proof (read_frame_conserves (S (evs_size evs)) (received st) evs) as Hcons.
+    cbn [read_frame] in *. fold (complete (received st)) in *. rewrite Hcomp in *.
+    unfold complete in Hcomp. destruct (frame_need (received st)) as [n|] eqn:En; [|discriminate].
+    destruct Hcons as (_ & Hcons & Hneed). rewrite Hw in Hcons.
+    destruct (front_frame seal open open_seal seal_len key (rctr st) (c :: cs) _ _ Hs Hneed Hcons)
+      as (c' & cs' & E & Hfr & Hrest).
+    injection E as <- <-. rewrite Hfr.
+    inversion Hs; subst.
+    rewrite (decrypt_one_frame seal open open_seal seal_len key (rctr st) c) by assumption.
+    cbn [conn_read plain]. destruct c as [|x c']; [congruence|].
+    cbn [firstn]. cbv iota. eexists. reflexivity.
+  Qed.
+End Progress.
+
+Definition cc_reads_refine_fifo := reads_refine_fifo cc_seal cc_open aead_open_seal aead_seal_len.
+Definition cc_read_progress := read_progress cc_seal cc_open aead_open_seal aead_seal_len.
+
+Lemma connread_nonvacuous :
+  let key := repeat 3 32 in
+  let chunks := [[1;2;3;4;5]; [6;7]] in
+  let w := wire cc_seal key 0 chunks in
+  let evs := [SockTimeout; SockData (firstn 30 w); SockData (skipn 30 w)] in
+  small chunks /\ no_eof evs /\ received (init_conn 0) ++ datas evs = wire cc_seal key (rctr (init_conn 0)) chunks /\
+  fst (fst (run_reads cc_open key (init_conn 0) [3; 3; 3; 3; 3]%nat evs)) =
+    [RTimeout; RData [1;2;3]; RData [4;5]; RData [6;7]; RBlocked].
+Proof.
+  cbn zeta. split; [repeat constructor; simpl; lia|]. split; [repeat constructor; discriminate|].
+  split.
+  - vm_compute. reflexivity.
+  - vm_compute. reflexivity.
+Qed.
